@@ -219,6 +219,9 @@ def gen_encoders(g, tier, addr_mode, bufs=("exact+", "rand")):
         for mode in bufs:
             if mode == "exact+":
                 b = g.buf(size + r.choice([0, 1, 17]), r.choice([0x00, 0xFF, None]))
+            elif r.random() < 0.25:
+                # large caller buffers, around the one-byte and two-byte boundaries
+                b = g.buf(r.choice([255, 256, 257, 259, 260, 261, 262, 270, 276, 300, 511, 512, 513, 516, 530, 1024]) + (size if size > 250 else 0), r.choice([0x00, 0xA5]))
             else:
                 b = g.buf(size + 40)
             verb = "encr" if (name.startswith("gen") and r.random() < 0.5) else "enc"
@@ -263,6 +266,13 @@ def gen_sizes(g, tier):
             g.add("encr %s %s genSpdm secured 0102 %s %s" % (cid, hb(dst), hx(msg), hx(b)), "size:secured")
         else:
             g.add("enc %s %s genControl 8002 %s %s" % (cid, hb(dst), hx(msg), hx(b)), "size:control")
+    # far beyond the limit: lengths that wrap a 16-bit counter back into the acceptable range
+    for n in (65533, 65536, 65536 + 100, 131072 + 7):
+        d = [0x11] * n
+        g.add("enc %s 20 vendorDefined 00.0000beef.0000 %s %s" % (cid, hx(d), hx([0] * 64)), "size:huge")
+        g.add("enc %s 20 genSpdm spdm none %s %s" % (cid, hx(d), hx([0] * 64)), "size:huge")
+        g.add("enc %s 20 genControl 8002 %s %s" % (cid, hx(d), hx([0] * 64)), "size:huge")
+        g.add("enc %s 20 genIana none %s %s" % (cid, hx(d), hx([0] * 64)), "size:huge")
     # exact boundaries for every writer: message length 250 / 251 (hdr + data = 249 / 250)
     for n in (247, 248, 249, 250, 251, 252, 255, 256, 259, 260, 300):
         for name, h in (("genControl", "8002"), ("genPci", "none"), ("genIana", "-"), ("genSpdm spdm", "aa")):
@@ -372,6 +382,9 @@ def gen_decode_families(g, tier, verb="dec", ctxs=None, proc_buf=None):
                 emit(refix(p[:k]), "trunc-refixed")
         emit(p + [0], "ext0")
         emit(p + [g.rb()], "ext")
+        for v in (0xFF, 0x00, p[-1], 0x01):
+            for k in (1, 2, 5):
+                emit(p + [v] * k, "ext-pad")
     # short strings that hit the length guards with a matching PEC
     for n in range(0, 14):
         for _ in range(12):
@@ -401,6 +414,15 @@ def gen_decode_families(g, tier, verb="dec", ctxs=None, proc_buf=None):
                 q[8] = r.choice(MSG_TYPES)
                 q[9] = r.choice([q[9], 0x80, 0x00])
                 emit(refix(q), "random-wellformed")
+    # the length probe on a prefix, then the whole receive buffer (packet + stray bytes) on the same context
+    for p, lab in vp[::2]:
+        cid = r.choice(ctxs)
+        for stray in ([0x11, 0x22], [0xFF], [0x00, 0x00, 0x00], g.rbytes(4)):
+            g.add("len %s %s" % (cid, hx(p[:3])), "probe-then:probe")
+            if verb == "dec":
+                g.add("dec %s %s" % (cid, hx(p + stray)), "probe-then:decode")
+            else:
+                g.add("proc %s %s %s" % (cid, hx(p + stray), hx(proc_buf() if proc_buf else g.buf(64))), "probe-then:process")
     # long control packets (D8: byte count arithmetic on the incoming packet)
     for n in (240, 243, 244, 245, 246, 247, 248, 249, 250, 251, 252, 300):
         emit(forge(0x10, 0x20, 0x10, 0x20, 0, ctrl_req(2, g.rbytes(n))), "long-req")
@@ -512,16 +534,21 @@ def gen_history(g, nops, cid, cfg, fam, eid_pool=None):
         elif k < 0.84:
             g.add("setuuid %s %s" % (cid, hx(g.rbytes(16))), fam + "|hist:setuuid")
             continue
-        elif k < 0.92:
+        elif k < 0.90:
             e = r.randrange(1, 255)
             p = forge(addr & 0x7F, src7, 0, src_eid, 0, ctrl_req(1, [r.choice([0, 1]), e]))
             g.add("dec %s %s" % (cid, hx(p)), fam + "|hist:decode-only")
+            continue
+        elif k < 0.93:
+            # the length probe on a partial (or whole) packet of some other length
+            p = forge(addr & 0x7F, src7, 0, src_eid, 0, ctrl_req(r.choice([2, 3, 4, 1]), g.rbytes(r.choice([0, 1, 2]))))
+            g.add("len %s %s" % (cid, hx(p[:r.choice([3, 4, 8, len(p)])])), fam + "|hist:probe")
             continue
         else:
             # an encoder call in between (must not change anything)
             g.add("enc %s %s reqGetEid %s" % (cid, hb(g.rb()), hx(g.buf(16))), fam + "|hist:encoder")
             continue
-        g.add("proc %s %s %s" % (cid, hx(p), hx(g.buf(64 + r.randrange(24)))), fam + "|" + kind)
+        g.add("proc %s %s %s" % (cid, hx(p), hx(g.buf(64 + r.randrange(24) if r.random() < 0.9 else r.choice([255, 256, 260, 270, 300, 516])))), fam + "|" + kind)
         if r.random() < 0.35:
             # observe the EID through a Get Endpoint ID request
             q = forge(addr & 0x7F, src7, 0, src_eid, 0, ctrl_req(2, [], iid=r.randrange(32)))
@@ -585,6 +612,38 @@ def gen_sweeps(g, verb="dec", n_templates=6):
                     g.add("procsweep %s %s %d %d %s" % (cid, hx(p), i, j, hx([0x5A] * 64)), "procsweep:%d,%d" % (i, j))
 
 
+def resp_len(cmd, types, vendors, sel=0):
+    """total length of the response the responder writes for an answerable request"""
+    if cmd in (1, 2):
+        return 16
+    if cmd == 3:
+        return 29
+    if cmd == 4:
+        return 18
+    if cmd == 5:
+        return 14 + len(types)
+    if cmd == 6:
+        return 19 if vendors[sel][0] == 0 else 21
+    return 64
+
+
+def gen_exact_buffers(g, tier):
+    """answerable requests processed into response buffers of exactly the response length, one more,
+    one less (the last must not succeed), for several configurations"""
+    r = g.r
+    for (addr, types, vendors) in [(0x23, [0x7E], [(0, 0x1234, 0xAB), (1, 0xC0FFEE01, 2)]),
+                                   (0x41, g.rbytes(30), g.rand_vendors(3)), (0x05, [], [(1, 1, 1)]),
+                                   (0x6C, g.rbytes(r.randrange(1, 30)), g.rand_vendors(2))]:
+        cid = g.ctx(addr, types, vendors)
+        for rep in range(2):
+            for body, lab in answerable_requests(g, len(vendors), [0x56, 0x01]):
+                cmd = body[1]
+                L = resp_len(cmd, types, vendors, body[2] if cmd == 6 else 0)
+                for bl in (L, L + 1, L, L - 1):
+                    p = forge(addr & 0x7F, 0x34, r.choice([addr, 0x56]), 0x34, 0, body)
+                    g.add("proc %s %s %s" % (cid, hx(p), hx(g.buf(bl, r.choice([0x00, 0xFF, None])))), "exact-buffer:" + lab)
+
+
 def gen_responses(g, tier):
     """responses written by process_packet are encoded packets too (C03, C04, C05): answerable
     requests with every instance id, before and after an EID was assigned"""
@@ -598,7 +657,7 @@ def gen_responses(g, tier):
                     b[0] = (b[0] & 0xE0) | iid
                     src = r.randrange(128)
                     p = forge(addr & 0x7F, src, r.randrange(256), r.choice([src, r.randrange(256)]), 0, b)
-                    g.add("proc %s %s %s" % (cid, hx(p), hx(g.buf(64 + r.randrange(6)))), "response:" + lab)
+                    g.add("proc %s %s %s" % (cid, hx(p), hx(g.buf(r.choice([64, 65, 66, 69, 128, 256, 260, 262, 275, 300, 516])))), "response:" + lab)
             g.add("seteid %s resp %s" % (cid, hb(0x40 + rnd_)), "setup")
             g.add("seteid %s req %s" % (cid, hb(0x50 + rnd_)), "setup")
 
@@ -654,6 +713,21 @@ def gen_for(prop, tier, seed):
     elif prop in ("C09",):
         gen_decode_families(g, tier, "dec")
         gen_state_probes(g, tier, with_decode=True)
+        # the outcome must not depend on earlier calls: probe / decode / process something else first
+        cid = g.ctx(0x23, [0x7E], [(0, 0x1234, 0xAB)])
+        vp = valid_packets(g)
+        for p, lab in vp:
+            q, _ = r.choice(vp)
+            which = r.randrange(4)
+            if which == 0:
+                g.add("len %s %s" % (cid, hx(q[:3])), "prior:probe-partial")
+            elif which == 1:
+                g.add("len %s %s" % (cid, hx(q)), "prior:probe-whole")
+            elif which == 2:
+                g.add("dec %s %s" % (cid, hx(q)), "prior:decode")
+            else:
+                g.add("proc %s %s %s" % (cid, hx(q), hx(g.buf(64))), "prior:process")
+            g.add("dec %s %s" % (cid, hx(p)), "after-prior:" + lab)
         if T:
             gen_sweeps(g, "dec")
     elif prop == "C10":
@@ -670,6 +744,9 @@ def gen_for(prop, tier, seed):
             g.add("len %s" % hx([g.rb(), v, g.rb()] + g.rbytes(r.randrange(3))), "len-command")
             g.add("len %s" % hx([v, 0x0F, r.choice([0, 0xFB, 0xFC, 0xFF])] + g.rbytes(2)), "len-addr")
         gen_state_probes(g, tier, with_decode=True)
+        cfg = (0x2C, [0x7E, 0x01], g.rand_vendors(2))
+        cid0 = g.ctx(*cfg)
+        gen_history(g, 2000 if T else 600, cid0, cfg, "long")
         if T:
             gen_sweeps(g, "dec")
             gen_sweeps(g, "proc")
@@ -703,10 +780,23 @@ def gen_for(prop, tier, seed):
             return [r2.randrange(256) for _ in range(n)]
         gen_decode_families(g, tier, "proc", proc_buf=pb)
         gen_state_probes(g, tier)
+        gen_exact_buffers(g, tier)
+        cfg = (0x2B, [0x7E, 0x01], g.rand_vendors(2))
+        cid = g.ctx(*cfg)
+        gen_history(g, 2000 if T else 600, cid, cfg, "long")
+        # everything that is not an accepted request must leave ANY buffer alone, however small
+        for n in list(range(0, 20)) + [31, 32, 63]:
+            for p, lab in valid_packets(g):
+                if lab.startswith("req"):
+                    p = list(p)
+                    p[-1] ^= 0x5A          # requests only with a broken PEC here
+                    lab = "badpec-" + lab
+                g.add("proc %s %s %s" % (cid, hx(p), hx(g.buf(n))), "smallbuf:" + lab[:8])
         if T:
             gen_sweeps(g, "proc")
     elif prop == "C12":
         gen_state_probes(g, tier)
+        gen_exact_buffers(g, tier)
         resp_cfgs = [(0x23, [0x7E], [(0, 0x1234, 0xAB)]), (0x7F, g.rbytes(30), g.rand_vendors(4)),
                      (0x80 | r.randrange(128), [], g.rand_vendors(1)), (0x00, g.rbytes(5), g.rand_vendors(16))]
         for (addr, types, vendors) in resp_cfgs:
@@ -720,7 +810,7 @@ def gen_for(prop, tier, seed):
                         b = list(body)
                         b[0] = (b[0] & 0xE0) | iid | (r.choice([0, 0x40]) if r.random() < 0.2 else 0) | (0x20 if r.random() < 0.1 else 0)
                         p = forge(addr & 0x7F, src7, r.randrange(256), src7, 0, b)
-                        g.add("proc %s %s %s" % (cid, hx(p), hx(g.buf(64 + r.randrange(8)))), "answer:" + lab)
+                        g.add("proc %s %s %s" % (cid, hx(p), hx(g.buf(64 + r.randrange(8) if r.random() < 0.8 else r.choice([256, 260, 265, 276, 300, 516])))), "answer:" + lab)
             # requester whose EID differs from its SMBus address (outside the stated hypothesis, still compared)
             for _ in range(30):
                 body, lab = r.choice(answerable_requests(g, len(vendors), [7]))
@@ -728,6 +818,21 @@ def gen_for(prop, tier, seed):
                 g.add("proc %s %s %s" % (cid, hx(p), hx(g.buf(64))), "answer-foreign:" + lab)
     elif prop == "C13":
         gen_state_probes(g, tier)
+        gen_exact_buffers(g, tier)
+        # assignments processed into buffers too small for the answer: whatever the call does, both
+        # halves must still move together
+        for bl in list(range(0, 16)) + [20, 40]:
+            cid = g.ctx(0x23, [], [(0, 1, 1)])
+            g.add("seteid %s req 21" % cid, "setup")
+            g.add("seteid %s resp 21" % cid, "setup")
+            for op in (0, 1, 3):
+                pk = forge(0x23, 0x34, 0x23, 0x34, 0, ctrl_req(1, [op, 0x56 + op]))
+                g.add("proc %s %s %s" % (cid, hx(pk), hx(g.buf(bl))), "tiny-buffer:seteid")
+                g.add("proc %s %s %s" % (cid, hx(forge(0x23, 0x34, 0x23, 0x34, 0, ctrl_req(2, []))), hx(g.buf(64))), "tiny-buffer:observe")
+        # one long history on a single context (anything that depends on the number of calls so far)
+        cfg = (0x2A, [0x7E], g.rand_vendors(3))
+        cid = g.ctx(*cfg)
+        gen_history(g, 3000 if T else 700, cid, cfg, "long")
         nh, no = (5000, 120) if T else (400, 40)
         for i in range(nh):
             addr = g.rb()
@@ -741,6 +846,15 @@ def gen_for(prop, tier, seed):
                 g.add("proc %s %s %s" % (cid, hx(forge(0x15, 9, 0, 9, 0, ctrl_req(1, [op, e]))), hx(g.buf(64))), "all-eids")
                 g.add("proc %s %s %s" % (cid, hx(forge(0x15, 9, 0, 9, 0, ctrl_req(2, []))), hx(g.buf(64))), "all-eids-observe")
     elif prop == "C14":
+        gen_exact_buffers(g, tier)
+        # configurations with repeated sets (equal to the last one, to the first one, all equal)
+        A, Bv, Cv = (0, 0x1234, 7), (1, 0xCAFE0001, 9), (0, 0x1234, 8)
+        for vendors in ([A, Bv, A], [A, A], [A, A, A, A], [Bv, A, Bv, A], [A, Cv, A, Cv, A], [Bv, Bv, A]):
+            for bl in (64, 260, 300, 516):
+                cid = g.ctx(0x31, [], vendors)
+                for sel in list(range(len(vendors))) + [0, len(vendors) - 1, 1 % len(vendors)]:
+                    p = forge(0x31, 0x11, 0x31, 0x11, 0, ctrl_req(6, [sel], iid=r.randrange(32)))
+                    g.add("proc %s %s %s" % (cid, hx(p), hx(g.buf(bl))), "walk-duplicates")
         for n in (list(range(1, 17)) + ([32, 64, 128, 200, 254, 255] if T else [255])):
             for rep in range(6 if T and n <= 16 else 2):
                 vendors = g.rand_vendors(n)
@@ -753,10 +867,11 @@ def gen_for(prop, tier, seed):
                     order = order + r.sample(order, min(n, 5))
                 for s in order:
                     p = forge(addr & 0x7F, 0x11, addr, 0x11, 0, ctrl_req(6, [s], iid=r.randrange(32)))
-                    g.add("proc %s %s %s" % (cid, hx(p), hx(g.buf(64))), "walk%d" % min(n, 17))
+                    g.add("proc %s %s %s" % (cid, hx(p), hx(g.buf(r.choice([64, 64, 65, 128, 255, 256, 260, 270, 300, 520])))), "walk%d" % min(n, 17))
                     if r.random() < 0.2:
                         gen_history(g, 1, cid, (addr, [], vendors), "walk-interleave")
     elif prop == "C15":
+        gen_exact_buffers(g, tier)
         for n in list(range(0, 31)):
             types = g.rbytes(n)
             addr = g.rb()
